@@ -398,29 +398,9 @@ static int hdf_xdr_NCvdata(NC *handle, NC_var *vp, unsigned long where, nc_type 
     __CPROVER_ensures((__CPROVER_return_value == SUCCEED && g_iofail == __CPROVER_old(g_iofail)) ||
                       (__CPROVER_return_value == FAIL && g_iofail == 1));
 
-#define VA_WRITE (e_h->xdrs->x_op == XDR_ENCODE)
-#define VA_MAX(a, b) ((a) > (b) ? (a) : (b))
-
-int H4_NCvario(NC *handle, int varid, const long *start, const long *edges, void *values)
-    __CPROVER_requires(handle == e_h && handle != NULL && start != NULL && edges != NULL && (char *)values == g_rq_values)
-    __CPROVER_requires(g_runs == 0 && g_cells == 0 && g_iofail == 0 && g_hw_n == 0 && g_seek_n == 0)
-    __CPROVER_assigns(g_vp->numrecs, e_h->numrecs, e_h->flags, g_vp->aid, g_vp->data_ref, g_vp->set_length, g_cells, g_runs,
-                      g_iofail, g_hw_n, g_hw_ok, g_seek_n, g_seek_off)
-    __CPROVER_ensures(__CPROVER_return_value == 0 || __CPROVER_return_value == -1)
-    /* (a) a request reaching outside the extent in ANY dimension fails, and no run was issued */
-    __CPROVER_ensures(g_rq_bad ==> __CPROVER_return_value == -1)
-    __CPROVER_ensures(g_rq_bad ==> g_runs == 0)
-    /* (a) ... and it changes nothing: no fill records, the unlimited dimension does not grow */
-    __CPROVER_ensures(g_rq_bad ==> (g_hw_n == 0 && g_vp->numrecs == __CPROVER_old(g_vp->numrecs) &&
-                                    e_h->numrecs == __CPROVER_old(e_h->numrecs)))
-    /* (b) success: the runs cover every selected cell (exactly once, in order: run preconditions) */
-    __CPROVER_ensures(__CPROVER_return_value == 0 ==> g_cells == g_total)
-    /* nothing valid is rejected, and a failing I/O step is reported */
-    __CPROVER_ensures((g_rq_proper && !g_iofail && (__CPROVER_old(e_h->flags) & NC_INDEF) == 0) ==> __CPROVER_return_value == 0)
-    __CPROVER_ensures(g_iofail ==> __CPROVER_return_value == -1)
-    /* growth along the unlimited dimension */
-    __CPROVER_ensures((__CPROVER_return_value == 0 && g_rq_proper && C03_REC(g_vp) && VA_WRITE) ==>
-                      (long)g_vp->numrecs == VA_MAX((long)__CPROVER_old(g_vp->numrecs), start[0] + edges[0]));
+/* NCvario itself carries no function contract: its specification is asserted by the harness
+   (h_NCvario) -- enforcing a contract adds an assigns-clause check to every store of the unwound
+   odometer (27 K verification conditions, out of memory at rank 2). */
 #endif
 
 #ifdef H4V_NATIVE
@@ -453,13 +433,23 @@ mk_skel(void)
     g_fill_user  = 0;
     s_nm.values  = s_nmbuf;
     s_nm.count = s_nm.len = 1;
+    /* -DVA_OP / -DVA_FLAGS: one obligation per constant (transfer direction, file flags): with symbolic
+       values cbmc has to unwind the fill-record path of NCcoordck at every run of the odometer */
+#ifdef VA_OP
+    s_x.x_op = (enum xdr_op)VA_OP;
+#else
     H4V_ND(int, x_op);
     H4V_ASSUME(x_op == XDR_ENCODE || x_op == XDR_DECODE);
     s_x.x_op      = (enum xdr_op)x_op;
+#endif
     s_x.x_private = NULL;
-    H4V_ND(unsigned, h_flags);
     H4V_ND(unsigned, h_numrecs);
+#ifdef VA_FLAGS
+    s_nc.flags = VA_FLAGS;
+#else
+    H4V_ND(unsigned, h_flags);
     s_nc.flags     = h_flags;
+#endif
     s_nc.xdrs      = &s_x;
     s_nc.numrecs   = h_numrecs;
     s_nc.recsize   = 0;
@@ -680,7 +670,31 @@ h_NCvario(void)
     g_q_inside = inside;
     H4V_ND(int, varid);
 
+    int      old_nr = s_vp.numrecs;
+    unsigned old_hnr = s_nc.numrecs, old_flags = s_nc.flags;
+    long     start0 = start[0], edges0 = edges[0], start_g0 = start_g[1 + (rank - 1)], edges_g0 = edges_g[1 + (rank - 1)];
+
     int r = NCvario(&s_nc, varid, start, edges, values);
+
+    H4V_CHECK(r == 0 || r == -1, "0 or -1");
+    /* (a) a request reaching outside the extent in ANY dimension fails, and no run was issued */
+    H4V_CHECK(!bad || r == -1, "(a) out-of-range request returns -1");
+    H4V_CHECK(!bad || g_runs == 0, "(a) no run is issued for an out-of-range request");
+    /* (a) ... and it changes nothing: no fill records, the unlimited dimension does not grow */
+    H4V_CHECK(!bad || (g_hw_n == 0 && s_vp.numrecs == old_nr && s_nc.numrecs == old_hnr),
+              "(a) out-of-range request writes no fill records and does not grow the unlimited dimension");
+    /* (b) success: the runs cover every selected cell (exactly once, in order: run preconditions) */
+    H4V_CHECK(r != 0 || g_cells == total, "(b) on success every selected cell was transferred");
+    /* nothing valid is rejected, and a failing I/O step is reported */
+    H4V_CHECK(!(g_rq_proper && !g_iofail && (old_flags & NC_INDEF) == 0) || r == 0, "a valid request succeeds");
+    H4V_CHECK(!g_iofail || r == -1, "an I/O failure is reported");
+    /* growth along the unlimited dimension */
+    H4V_CHECK(!(r == 0 && g_rq_proper && rec && wr) ||
+                  (long)s_vp.numrecs == (old_nr > start0 + edges0 ? (long)old_nr : start0 + edges0),
+              "numrecs == max(numrecs, start[0] + edges[0]) after a record write");
+    /* the caller's vectors are not modified */
+    H4V_CHECK(start[0] == start0 && edges[0] == edges0 && start[rank - 1] == start_g0 && edges[rank - 1] == edges_g0,
+              "start / edges unchanged");
 
     H4V_COVER(r == 0 && rank == MAXR && g_runs >= 4 && !rec, "odometer: 4+ runs at full rank, fixed-size variable");
     H4V_COVER(r == 0 && rank == MAXR && g_runs == 1 && total >= 8, "one run for a request contiguous from dimension 0");
